@@ -63,6 +63,13 @@ def cases(tier, seed, i, n):
                 for pf in ('pipe', 'timeout', 'reset'):
                     k += 1
                     yield dict(kind='sim', tls=tls, size=size, shape='many-small', rec=16384 if tls else None, short=None, nb=2, seed=k, pongfault=pf)
+        # the application's own send is interrupted (Ctrl-C / a signal handler that raises while the thread is in the
+        # system call; nothing written) and the application carries on: pings that arrive later are answered in their cycle
+        for tls in (False, True):
+            for size in (300, 20000):
+                for ai in ('kbint', 'sysexit'):
+                    k += 1
+                    yield dict(kind='sim', tls=tls, size=size, shape='many-small', rec=16384 if tls else None, short=None, nb=3, seed=k, appint=ai)
         for via in ('https-proxy', 'http-proxy'):
             for size in (1000, 16384, 20000, 70000):
                 for shape in ('one-message', 'many-small', 'ends-with-empty'):
@@ -210,6 +217,12 @@ def run_case(case, acc):
         # buffer is full): says nothing about what has been RECEIVED - everything available is still delivered
         w.frame_faults = {10: case['pongfault']}
         acc.count2('oracle', 'pong_write_fault_runs')
+    policy = None
+    if case.get('appint'):
+        w.frame_faults = {2: case['appint']}
+        policy = H.TablePolicy({'binary#0': [['send_binary', b'interrupted']], 'text#0': [['send_binary', b'interrupted']],
+                                'ping#0': [['send_binary', b'interrupted']]})
+        acc.count2('oracle', 'application_send_interrupted_runs')
     ws0 = None
     if case['seed'] % 4 == 1:
         w0 = H.World(factory if via else H.hs_server([('raw', F(2, b'x' * 20000)[:9000]), ('eof',)]), tls_records=case.get('rec'), tls_short=case.get('short'))
@@ -226,7 +239,7 @@ def run_case(case, acc):
         # a session class with a receive buffer smaller than a TLS record (BUFFER_SIZE is a documented class attribute)
         sclass = type('SmallBufferSession', (simnet.SimSession,), dict(BUFFER_SIZE=case['bufsize']))
         acc.count2('oracle', 'small_receive_buffer_runs')
-    run = H.drive(w, url=url, ws=ws0, ws_kwargs=wskw, connect_kwargs=dict(ping_rate=0, poll=5.0), session_class=sclass)
+    run = H.drive(w, url=url, ws=ws0, ws_kwargs=wskw, connect_kwargs=dict(ping_rate=0, poll=5.0), session_class=sclass, policy=policy)
     acc.count2('oracle', 'tls_runs' if tls else 'plain_runs')
     key = None
     detail = dict(end=run.end, exc=run.exc, blocked_waits=w.blocked_waits, blocked_with_pending=w.blocked_with_pending[:5],
